@@ -44,11 +44,12 @@ Definition outcome_map {A B} (f : A -> B) (x : outcome A) : outcome B :=
 Notation "x <- e1 ;; e2" := (obind e1 (fun x => e2))
   (at level 100, e1 at next level, right associativity).
 
-Fixpoint omapM {A B} (f : A -> outcome B) (l : list A) : outcome (list B) :=
-  match l with
-  | [] => Ok []
-  | x :: xs => y <- f x ;; ys <- omapM f xs ;; Ok (y :: ys)
-  end.
+Definition omapM {A B} (f : A -> outcome B) : list A -> outcome (list B) :=
+  fix go (l : list A) : outcome (list B) :=
+    match l with
+    | [] => Ok []
+    | x :: xs => y <- f x ;; ys <- go xs ;; Ok (y :: ys)
+    end.
 
 Definition is_ok {A} (x : outcome A) : bool := match x with Ok _ => true | _ => false end.
 Definition is_panic {A} (x : outcome A) : bool :=
